@@ -168,6 +168,8 @@ def main(tier):
     rep.ob('write path explored', 'witness', '%d configurations' % len(specs), tot['q'], tot['s'], tot['paths'])
     props_create(rep)
     ctor_init_timestamp(rep, st, tier)
+    from checks import extglue
+    extglue.run_init(rep, st, tier); extglue.run_py_init_call(rep); extglue.run_dtype(rep, st, tier)
     n, bad = wrun.replay_witnesses(results, specs, limit=15)
     if bad:
         nm, cfgd, hist, d = bad[0]
